@@ -43,11 +43,17 @@ Fixpoint lookup_all (m : list (string * string)) (ks : list string) : option (li
   | [] => Some []
   | k :: r => match lookup m k, lookup_all m r with Some v, Some vs => Some (v :: vs) | _, _ => None end
   end.
+Fixpoint nodup_str (l : list string) : bool :=
+  match l with [] => true | x :: r => negb (existsb (String.eqb x) r) && nodup_str r end.
+(* ValueError if an identifier is missing from the mapping or the mapped identifiers are not unique *)
 Definition map_identifiers (ids : list string) (mapping : option (list (string * string)))
   : option (list string * list nat) :=
   match mapping with
   | None => Some (ids, seq 0 (length ids))
-  | Some m => match lookup_all m ids with Some ids' => Some (ids', argsort ids') | None => None end
+  | Some m => match lookup_all m ids with
+              | Some ids' => if nodup_str ids' then Some (ids', argsort ids') else None
+              | None => None
+              end
   end.
 
 (* sequential index assignment  out[idx[i]] = vals[i]  (later writes win) *)
@@ -143,7 +149,7 @@ Definition remap (p : pulse) (order : list nat) (dq : nat) (mapping : option (li
       tpl := if has_tpl then smap (scatter2 perm) (tpl p) else if has_cm then Fresh else Absent;
       control_matrix := if has_cm then smap (scatter_cm (inv_order nidx) perm) (control_matrix p) else Absent
     |}
-  | _, _ => None                                                          (* KeyError in the mapping *)
+  | _, _ => None                                                          (* ValueError in _map_identifiers *)
   end.
 
 (* ---------- exact comparison with the implementation's output ---------- *)
